@@ -64,25 +64,54 @@ func sibling(s *circuits.Spec, big bool) *circuits.Spec {
 	return &t
 }
 
-// assignNonZero draws a satisfying assignment whose public inputs avoid 0
-// unless zeroAt >= 0 asks for a zero public input at that index (index >= 1:
-// index 0 is the circuit's output).
-func assignFor(rng *rand.Rand, s *circuits.Spec, field *big.Int, zeroAt int) (pub, sec []*big.Int) {
+// assignFor draws a satisfying assignment.  Public inputs (index >= 1; index 0
+// is the circuit's output) are generic field elements, small values or 1, and
+// -1 / -2 when specials is set; never 0 unless zeroAt selects an index.
+func assignFor(rng *rand.Rand, s *circuits.Spec, field *big.Int, zeroAt int, specials bool) (pub, sec []*big.Int) {
 	for try := 0; ; try++ {
 		pub, sec = s.Assign(rng, field)
 		for i := 1; i < len(pub); i++ {
-			if pub[i].Sign() == 0 {
+			switch k := rng.IntN(8); {
+			case k == 0:
+				pub[i] = big.NewInt(1)
+			case k == 1:
 				pub[i] = big.NewInt(int64(2 + rng.IntN(1000)))
+			case k == 2 && specials:
+				pub[i] = new(big.Int).Sub(field, big.NewInt(int64(1+rng.IntN(2))))
+			default:
+				pub[i] = genericElem(rng, field)
 			}
 		}
 		if zeroAt >= 1 && zeroAt < len(pub) {
 			pub[zeroAt] = big.NewInt(0)
 		}
 		pub[0] = s.Eval(pub, sec, field)
-		if pub[0].Sign() != 0 || try > 20 {
+		if !structured(pub[0], field) || try > 20 {
 			return
 		}
 	}
+}
+
+func genericElem(rng *rand.Rand, field *big.Int) *big.Int {
+	for {
+		b := make([]byte, (field.BitLen()+7)/8+8)
+		for i := range b {
+			b[i] = byte(rng.UintN(256))
+		}
+		v := new(big.Int).Mod(new(big.Int).SetBytes(b), field)
+		if !structured(v, field) {
+			return v
+		}
+	}
+}
+
+// structured: 0, or within 2^32 of the modulus (the negatives of small numbers).
+func structured(v, field *big.Int) bool {
+	if v.Sign() == 0 {
+		return true
+	}
+	d := new(big.Int).Sub(field, v)
+	return d.BitLen() <= 32
 }
 
 type g16Inner struct {
@@ -193,12 +222,11 @@ func nativePlonk(rn runner, proof plonk.Proof, vk plonk.VerifyingKey, pub witnes
 	return err, ""
 }
 
+// randTau: a generic toxic value (a structured one, e.g. -1, lies in the
+// evaluation domain and makes the whole key degenerate: no blinding, selector
+// commitments equal to +-G).
 func randTau(rng *rand.Rand, field *big.Int) *big.Int {
-	t := circuits.RandFieldElem(rng, field)
-	if t.BitLen() < 64 {
-		t.Add(t, new(big.Int).Lsh(big.NewInt(1), 100))
-	}
-	return t
+	return genericElem(rng, field)
 }
 
 func clonev(v []*big.Int) []*big.Int {
